@@ -401,6 +401,17 @@ def _do_op(op, sandbox):
         if not oc.ok:
             return {"exc": oc.excname()}
         return {"raw": mask_creation_date(oc.raw)}
+    if kind == "recheck-prepare":
+        # a Checker is built now and asked later (a GUI prepares a job list): other Checker objects are built and used
+        # in between; a fresh interpreter builds the object when the answer is asked for
+        key = (p(op["meta"]), p(op["content"]))
+        recheck = drive.mod("recheck")
+        try:
+            _KEPT[key] = recheck.Checker(*key)
+            return {"ret": "prepared"}
+        except BaseException as exc:  # noqa
+            _KEPT.pop(key, None)
+            return {"exc": type(exc).__name__}
     if kind == "recheck" and op.get("via") == "lib" and op.get("keep_object"):
         # the interpreter keeps the Checker object of an earlier identical request and asks it again (a fresh
         # interpreter has none and builds one): the object may not remember anything that matters
@@ -683,6 +694,13 @@ class C09:
                     hist.append(mk_config_create())
                     if rng.random() < 0.6:
                         hist.append(mk_config_create())      # ... and another one with another subset of keys
+            elif c < 0.65 and metas and len(metas) > 1 and rng.random() < 0.3:
+                # two Checker objects alive at once: A is built, B is built and asked, then A is asked
+                (ma, _), (mb, _) = rng.sample(metas, 2)
+                ca = rng.choice(["p", "."])
+                hist.append({"op": "recheck-prepare", "meta": ma, "content": ca})
+                hist.append({"op": "recheck", "meta": mb, "content": rng.choice(["p", "."]), "via": "lib"})
+                hist.append({"op": "recheck", "meta": ma, "content": ca, "via": "lib", "keep_object": True})
             elif c < 0.65 and metas:
                 m, _ = rng.choice(metas)
                 hist.append({"op": "recheck", "meta": m, "content": rng.choice(["p", "."]), "via": rng.choice(["lib", "cli"]),
